@@ -196,8 +196,14 @@ impl Property for C04 {
                     }
                 }
             }
-            for d in [Dev::OriginRemoved, Dev::OriginRemovedAfterApproval, Dev::NeverApproved, Dev::UnknownToken, Dev::SourceChainNotHub] {
+            for d in [Dev::OriginRemoved, Dev::OriginRemovedAfterApproval, Dev::NeverApproved, Dev::UnknownToken, Dev::SourceChainNotHub, Dev::OriginNeverTrusted] {
                 v.push(Case { trust_history: vec![], origin: 0, kind: k, amount: 5, data_len: 4, seed: 1, dev: d, prior_delivery: true });
+                if d == Dev::OriginNeverTrusted {
+                    for seed in [0u64, 2, 3, 4] {
+                        v.push(Case { trust_history: vec![], origin: 0, kind: k, amount: 5, data_len: 4, seed, dev: d, prior_delivery: true });
+                        v.push(Case { trust_history: vec![], origin: 0, kind: k, amount: 5, data_len: 4, seed, dev: d, prior_delivery: false });
+                    }
+                }
             }
             for seed in 0..6u64 {
                 v.push(Case { trust_history: vec![], origin: 0, kind: k, amount: 5, data_len: 4, seed, dev: Dev::BadRecipientOrMinter, prior_delivery: false });
@@ -295,7 +301,9 @@ impl Property for C04 {
             _ => String::new(),
         };
         let origin_name: &str = match case.dev {
-            Dev::OriginNeverTrusted => "never-trusted-chain",
+            // (a name nobody ever trusted: an arbitrary one, the hub chain's own name - every delivery comes *through* the hub,
+            // which does not make the hub an origin -, the service's own chain name, the hub's address, the empty name)
+            Dev::OriginNeverTrusted => ["never-trusted-chain", HUB_CHAIN, "stellar", HUB_ADDR, ""][(case.seed % 5) as usize],
             Dev::OriginCaseOrSpaceVariant(_) => &origin_variant,
             _ => origin,
         };
